@@ -31,7 +31,7 @@ type execResult struct {
 func execute(hist []int, tier string, verbose bool) (out explore.BFSOut, lines []string) {
 	evs := Events(tier)
 	w := World()
-	if len(hist) > 0 && hist[0] >= scriptedBase {
+	if len(hist) > 0 && hist[0] >= scriptedBase && hist[0] < twinBase {
 		w = WorldScripted()
 	}
 	x, err := harness.StartRun(w)
@@ -57,13 +57,9 @@ func execute(hist []int, tier string, verbose bool) (out explore.BFSOut, lines [
 	for pos := 0; pos < total; pos++ {
 		var ev event
 		if pos < len(hist) {
-			switch se := scriptedEvents(); {
-			case hist[pos] >= scriptedBase && hist[pos] < scriptedBase+len(se):
-				ev = se[hist[pos]-scriptedBase]
-			case hist[pos] < 0 || hist[pos] >= len(evs):
+			var ok bool
+			if ev, ok = eventByIndex(evs, hist[pos]); !ok {
 				return explore.BFSOut{Err: fmt.Sprintf("event index %d out of range", hist[pos])}, lines
-			default:
-				ev = evs[hist[pos]]
 			}
 		} else {
 			ev = event{Name: "(quiet extension)"}
@@ -206,7 +202,7 @@ func Main(args []string) int {
 	st := explore.RunBFS(cfg, rep)
 	st.Fill(rep)
 	// scripted histories (an option changes in the middle of the proposal's life): same executor, same model
-	scripted := ScriptedHistories()
+	scripted := append(ScriptedHistories(), TwinHistories()...)
 	idMode := os.Getenv("VERIF_C14_ID")
 	if idMode != "" {
 		scripted = nil // the pass with a hostile proposal id runs the search only
@@ -221,7 +217,8 @@ func Main(args []string) int {
 		h := scripted[jr.Index]
 		var names []string
 		for _, e := range h {
-			names = append(names, scriptedEvents()[e-scriptedBase].Name)
+			ev, _ := eventByIndex(nil, e)
+			names = append(names, ev.Name)
 		}
 		if jr.Died || jr.Timeout {
 			st.HarnessErrors++
